@@ -26,6 +26,10 @@ CHECKS = {
    text="Gate: every Redis 5.0 command name, the documented unsupported list, systematic near-misses of every supported name (suffix/prefix/truncation/Unicode-fold) and PRNG names in three letter cases x 0-5 args must be rejected without any backend arrival (or answered locally); routing: every forwarded command that can modify data must arrive at the master owning the reference slot under MASTER/REPLICA/BOTH, reads only at that master or its replicas as the strategy permits, also while the table is refreshed every 2 ms.",
    note="Trusted: cmd/vcheck/spec.go (Redis 5.0 flags, documented unsupported list). Commands that are valid keyed Redis commands but undocumented either way are judged by the routing rule only.",
    ref="DESIGN.md section 4 C14"),
+ "C13": dict(level="exploration", technique="stored-form monitor with an independent snappy decoder + read-back equality, white box (filter chain passed once and twice, -race child) and end to end (node stores inspected, MOVED/ASK-redirected writes, enable/disable toggling, banned commands no-arrival)",
+   text="For PRNG values around every threshold and every supported write command/argument position: what reaches the backend is the original or header+stream decoding (by golang/snappy called directly) to the original and shorter; keys/fields untouched; read-back through GET/MGET/GETSET/HGET/HMGET/HGETALL/HVALS is byte-identical, also after a second filter pass (resend), after real MOVED and ASK redirections, from 1-32 concurrent connections (pooled buffers) and after compression is switched off/on; banned commands are rejected with no backend arrival.",
+   note="Trusted: github.com/golang/snappy decoder, documented 6-byte header, simulated nodes' stores. Values starting with the header are excluded as the statement says.",
+   ref="DESIGN.md section 4 C13"),
 }
 NOT_BUILT = "check not built yet in this session (design in DESIGN.md section 4)"
 
